@@ -1,0 +1,14 @@
+//go:build verif
+
+package core
+
+// VerifFileAccessObserver, when set, is told about every path handed to the
+// operating system while INCLUDE directives are resolved (op is "stat" or "read").
+// Only compiled with the "verif" build tag; used by external conformance checks.
+var VerifFileAccessObserver func(op, path string)
+
+func verifFileAccess(op, path string) {
+	if f := VerifFileAccessObserver; f != nil {
+		f(op, path)
+	}
+}
